@@ -360,6 +360,10 @@ class IOPort(BaseIOPort):
         # lock of its own.)
         return self.input.receive(block=block)
 
+    def __iter__(self):
+        # The input port knows when it has closed itself.
+        return iter(self.input)
+
 
 class EchoPort(BaseIOPort):
     def _send(self, message):
